@@ -92,9 +92,13 @@ func RunMaskTrace(cfg MaskTraceConfig, res *core.Result) error {
 			kg = csuite
 		}
 		pubs := make([]kyber.Point, n)
+		privs := make([]kyber.Scalar, n)
 		for i := range pubs {
-			pubs[i] = kg.Point().Mul(pickScalar(kg, r.Int63(), "k"), nil)
+			privs[i] = pickScalar(kg, r.Int63(), "k")
+			pubs[i] = kg.Point().Mul(privs[i], nil)
 		}
+		tmsg := randBytes(r, 1+r.Intn(24))
+		var tsigs [][]byte // honest bdn signatures of all signers on tmsg (made on first use)
 		stray := kg.Point().Mul(pickScalar(kg, r.Int63(), "stray"), nil)
 		emit(map[string]any{"ev": "reset", "n": n, "kind": kind, "tr": t})
 		objs := map[string]*maskObj{}
@@ -121,9 +125,12 @@ func RunMaskTrace(cfg MaskTraceConfig, res *core.Result) error {
 					b[i] = 0xff
 				}
 			}
-			// padding bits stay clear (their meaning is left open by the property)
-			for i := n; i < 8*len(b); i++ {
-				b[i/8] &^= 1 << uint(i%8)
+			// padding bits: clear for cosi and for two thirds of the bdn arguments; otherwise left as drawn
+			// (value-preserving: they are not signers)
+			if kind == "cosi" || r.Intn(3) != 0 {
+				for i := n; i < 8*len(b); i++ {
+					b[i/8] &^= 1 << uint(i%8)
+				}
 			}
 			return b
 		}
@@ -184,9 +191,30 @@ func RunMaskTrace(cfg MaskTraceConfig, res *core.Result) error {
 					wb, _ := want.MarshalBinary()
 					gh, wh = fmt.Sprintf("%x", gb), fmt.Sprintf("%x", wb)
 				}
+				// the honest signatures of the enabled signers, aggregated over the object's mask and over the clean reference mask
+				if tsigs == nil {
+					for i := range privs {
+						sg, _ := sch.Sign(privs[i], clone(tmsg))
+						tsigs = append(tsigs, sg)
+					}
+				}
+				var part [][]byte
+				for _, i := range bits {
+					part = append(part, clone(tsigs[i]))
+				}
+				gs, ws := "error", "error-ref"
+				if a1, e1 := sch.AggregateSignatures(part, o.b); e1 == nil {
+					b1, _ := a1.MarshalBinary()
+					gs = fmt.Sprintf("%x", b1)
+				}
+				if a2, e2 := sch.AggregateSignatures(part, ref); e2 == nil {
+					b2, _ := a2.MarshalBinary()
+					ws = fmt.Sprintf("%x", b2)
+				}
 				st := o.state(n)
 				st["key"] = gh
-				emit(map[string]any{"ev": "AggKey", "obj": id, "seq": seq, "args": map[string]any{"canon": wh}, "ret": retOf(err), "state": st})
+				st["sig"] = gs
+				emit(map[string]any{"ev": "AggKey", "obj": id, "seq": seq, "args": map[string]any{"canon": wh, "canonsig": ws}, "ret": retOf(err), "state": st})
 				continue
 			}
 			switch {
